@@ -130,13 +130,17 @@ def _job(args):
     viol, disag, stats = [], [], {}
     nontriv = 0
     runs = [(h, m, False) for h, m in zip(hists, res)]
+    # ... and every third history with ONE caller-owned list object refilled for each list call and overwritten afterwards
+    runs += [(h, m, "recycle") for i, (h, m) in enumerate(zip(hists, res)) if i % 3 == 1 and any(ALL[s][0] == "list" for s in h)]
     # the same histories with every module name / pattern passed as a str-Enum-like member (a str whose str() is not its value):
     # the plain-name table only, every third history
     if tname == "plain":
         runs += [(h, m, True) for i, (h, m) in enumerate(zip(hists, res)) if i % 3 == 0]
     for h, m, member in runs:
-        k, fam, listing, _ = layers.run_la_impl([ALL[s] for s in h], member_names=member)
-        if member:
+        k, fam, listing, _ = layers.run_la_impl([ALL[s] for s in h], member_names=member is True, recycle_lists=member == "recycle")
+        if member == "recycle":
+            stats["histories_with_a_recycled_list_argument"] = stats.get("histories_with_a_recycled_list_argument", 0) + 1
+        elif member:
             stats["histories_with_str_enum_like_names"] = stats.get("histories_with_str_enum_like_names", 0) + 1
         sk, sarch = la_spec(h, ALL)
         mk, march = m[0], lenc.dec_larch(m[1])
@@ -218,7 +222,7 @@ def replay(ctx: Ctx, path: str) -> int:
         return 2
     h = c["la_history"]
     table = TABLES[c.get("names", "plain")]
-    k, fam, listing, _ = layers.run_la_impl([table[s] for s in h], member_names=bool(c.get("member_names")))
+    k, fam, listing, _ = layers.run_la_impl([table[s] for s in h], member_names=c.get("member_names") is True, recycle_lists=c.get("member_names") == "recycle")
     sk, sarch = la_spec(h, table)
     if k < len(h) and fam != "ConfigError":
         print(h, "offending call raised", fam)
